@@ -62,7 +62,8 @@ def dir_items(draw, depth, full, gopher_ok, toplevel, max_items=5, kinds=None):
         elif kind == "dir":
             item = {"kind": "dir", "items": draw(dir_items(depth - 1, full, gopher_ok, False, 3, kinds))}
         elif kind == "map":
-            item = {"kind": "map", "items": draw(dir_items(depth - 1, full, gopher_ok, False, 3,
+            # (names listed in a gophermap cannot contain TAB/CR/LF whatever the protocol: TAB separates its fields)
+            item = {"kind": "map", "items": draw(dir_items(depth - 1, full, True, False, 3,
                                                            [k for k in kinds if k in ("txt", "html", "bin", "dir")])),
                     "info": draw(st.lists(gen.text_line.map(str.strip), max_size=2))}
         elif kind == "mbox":
